@@ -6,12 +6,12 @@ import vlib
 
 THEOREMS = {"Properties.C02": ["C02_restart_lossless", "C02_no_resurrection", "C02_delete_absent",
                                "C02_seq_monotone", "C02_restart_chain", "C02_invariant",
-                               "C02_effects_exact", "C02_index_reject_refuted", "C02_nonvacuous"]}
+                               "C02_effects_exact", "C02_rejected_insert_harmless", "C02_nonvacuous"]}
 PINS = {"Properties.C02": {
     "_preamble": "From Coq Require Import List NArith ZArith Bool. From Kyro Require Import Model.Amap Model.Backend Proofs.BackendProofs. Open Scope N_scope.",
-    "C02_restart_lossless": "forall (c : cfg) (ops : list op), wf_cfg c = true -> norm_ok c -> ops_accepted c ops = true -> let s := run c ops in exists s', recover c Strict (st_disk s) = Ok s' /\\ st_store s' = st_store s",
-    "C02_restart_chain": "forall (c : cfg) (ops : list op) (n : nat), wf_cfg c = true -> norm_ok c -> ops_accepted c ops = true -> st_store (run c (ops ++ repeat ORestart n)) = st_store (run c ops) /\\ exists s', recover c Strict (st_disk (run c (ops ++ repeat ORestart n))) = Ok s' /\\ st_store s' = st_store (run c ops)",
-    "C02_no_resurrection": "forall (c : cfg) (ops : list op) (id : N), wf_cfg c = true -> norm_ok c -> ops_accepted c ops = true -> let s := run c ops in exists s', recover c Strict (st_disk s) = Ok s' /\\ get (st_store s') id = get (st_store s) id",
+    "C02_restart_lossless": "forall (c : cfg) (ops : list op), wf_cfg c = true -> norm_ok c -> let s := run c ops in exists s', recover c Strict (st_disk s) = Ok s' /\\ st_store s' = st_store s",
+    "C02_restart_chain": "forall (c : cfg) (ops : list op) (n : nat), wf_cfg c = true -> norm_ok c -> st_store (run c (ops ++ repeat ORestart n)) = st_store (run c ops) /\\ exists s', recover c Strict (st_disk (run c (ops ++ repeat ORestart n))) = Ok s' /\\ st_store s' = st_store (run c ops)",
+    "C02_no_resurrection": "forall (c : cfg) (ops : list op) (id : N), wf_cfg c = true -> norm_ok c -> let s := run c ops in exists s', recover c Strict (st_disk s) = Ok s' /\\ get (st_store s') id = get (st_store s) id",
     "C02_effects_exact": "forall (c : cfg) (s : state) (o : op) s' out effs, step c s o = (s', out, effs) -> st_disk s' = apply_effs (st_disk s) effs",
 }}
 
@@ -19,8 +19,8 @@ RULE = ("seeded histories (4..38 ops + 2 trailing restarts) over insert/overwrit
         "absent ids, update_metadata merge|replace, create_snapshot, restart on the real HnswBackend (persistence, "
         "FsyncPolicy::Never) x grid metric{euclidean,cosine,innerproduct} x dim{1,3,8,17} x snapshot_interval{0,1,2,5,1000} "
         "x max_wal_size{1 (rotate after every append), 1 frame, 3 frames, 3 frames+1, disabled, 1GiB} x capacity{2,4,64}; "
-        "id pool 4-8, vector pool of 16 per dimension (duplicates, near-duplicates, axis, tiny/huge norm, pre-normalised, "
-        "in/out of tolerance, zero, sub-epsilon, wrong dimension), metadata over 3 keys x 6 values; every outcome and, at "
+        "id pool 4-8, vector pool of 19 per dimension (duplicates, near-duplicates, axis, tiny/huge norm, pre-normalised, "
+        "in/out of tolerance, zero, sub-epsilon, wrong dimension, NaN, infinity, overflowing), metadata over 3 keys x 6 values; every outcome and, at "
         "restarts / every 4th op / the end, the census (exact f32 bits, sorted metadata) and the manifest shape are compared "
         "with Model/Backend.v inside coqc; a case is non-trivial when it is distinct and contains a successful restart after "
         "an overwrite or delete of a version that was logged before an earlier manifest change (snapshot, rotation, "
@@ -60,7 +60,7 @@ def run(ctx):
     n = 300 if ctx.tier == "quick" else 6000
     ctx.trusted += [
         "ASSUMPTION norm_ok (explicit premise of every C02 theorem): normalize_in_place_if_needed on f32 bit patterns preserves the length and is bitwise idempotent; measured on every run through hook H5 (verif_normalize_in_place_if_needed) on every vector used, and end-to-end by exact bit comparison insert -> fetch -> restart -> fetch",
-        "PREMISE ops_accepted: histories contain no insert whose normalised vector HnswVectorIndex::add_vector refuses after the WAL append (non-finite / overflowing); that class is known defect #1 (C02_index_reject_refuted is its model witness), exercised by C03",
+        "no premise on the operations: since /repo commit ca4513e insert pre-flights the index acceptance checks before the WAL append (former defect #1); the model's c_accepts predicate (all components finite; normalised norm_sq in [0.98,1.02] for cosine/inner product) is tied by the correspondence on NaN / infinite / overflowing pool vectors; vectors within 1.5% of the tolerance edge are kept out of the histories (SIMD summation order)",
         "Model/Backend.v is hand-written from hnsw_backend.rs / persistence.rs; its tie to the code is the kernel-evaluated correspondence of this check (outcomes, censuses, manifest shapes); not modelled: legacy seq_no=0 entries and timestamps, the HNSW graph, check_disk_space, WalErrorHandler retries/rollback, non-empty initial documents, Periodic(ms>0) timing",
         "file ids: the code uses the microsecond clock, the model the successor of the largest id in the directory (only their order is used); kill model of the file system (fsync effects are no-ops) - power loss is C01",
         "harness c02: error classification by message substrings ('dimension mismatch', 'norm is zero', 'index full'), metadata canonicalisation (sorted by key bytes), bincode frame size formula 52+4*dim+sum(16+|k|+|v|) checked only through rotation points (manifest shapes)",
